@@ -61,6 +61,15 @@ pub enum Step {
     SearchWithForeign { adapted: bool, app: u8, n: u8 },
     /// search() convenience call against a silent server (no stream the caller could finish())
     SearchConvTimeout { late: bool },
+    /// an operation that fails locally, before anything is sent: 0 = PagedResults adapter with a caller-supplied
+    /// paging control (AdapterInit), 1 = unparsable filter, 2 = add with an attribute without values,
+    /// 3 = [EntriesOnly, PagedResults] chain with a caller-supplied paging control, 4 = search() with a bad filter
+    LocalFailure(u8),
+    /// two operations on two clones time out at the same instant (both scrub requests are queued together)
+    DoubleTimeout { second_is_search: bool, late: bool },
+    /// a paged search is finished early on its second page while the (long released) id of its FIRST page
+    /// has been handed out again to an operation that is still outstanding: that operation must not be disturbed
+    PagedFinishWhileIdReused { adapted: bool },
 }
 
 #[derive(Clone, Debug, Serialize, Deserialize)]
@@ -90,6 +99,9 @@ fn strat(_: &Ctx) -> BoxedStrategy<Case> {
         2 => (any::<bool>(), any::<bool>(), any::<bool>()).prop_map(|(search, adapted, answered)| Step::TimeoutWhileQueued { search, adapted, answered }),
         1 => (any::<bool>(), proptest::sample::select(&[1u8, 7, 9, 11, 13, 15, 24][..]), 0u8..4).prop_map(|(adapted, app, n)| Step::SearchWithForeign { adapted, app, n }),
         1 => any::<bool>().prop_map(|late| Step::SearchConvTimeout { late }),
+        2 => (0u8..5).prop_map(Step::LocalFailure),
+        1 => (any::<bool>(), any::<bool>()).prop_map(|(second_is_search, late)| Step::DoubleTimeout { second_is_search, late }),
+        1 => any::<bool>().prop_map(|adapted| Step::PagedFinishWhileIdReused { adapted }),
     ];
     (vec(step, 3..=14), 1u8..=3, any::<u64>()).prop_map(|(steps, repeat, sched)| Case { steps, repeat, sched }).boxed()
 }
@@ -532,6 +544,123 @@ async fn do_step(cx: &mut Cx, step: &Step) -> Result<(), Fail> {
             quiesce().await;
             cx.send_late();
         }
+        Step::LocalFailure(kind) => {
+            let before: usize = cx.sh.lock().unwrap().wire_ids.values().map(|v| v.len()).sum();
+            let mk = simops::marker(cx.next_idx);
+            cx.next_idx += 1;
+            let what = match kind % 5 {
+                0 | 3 => {
+                    cx.ldap.with_controls(vec![ldap3::controls::PagedResults { size: 5, cookie: vec![] }.into()]);
+                    let r = if kind % 5 == 0 {
+                        cx.ldap.streaming_search_with(PagedResults::new(2), &mk, Scope::Subtree, "(a=b)", vec!["a"]).await.map(|_| ())
+                    } else {
+                        let ad: Vec<Box<dyn Adapter<_, _>>> = vec![Box::new(EntriesOnly::new()), Box::new(PagedResults::new(2))];
+                        cx.ldap.streaming_search_with(ad, &mk, Scope::Subtree, "(a=b)", vec!["a"]).await.map(|_| ())
+                    };
+                    ensure!(r.is_err(), "c13:op-failed", "a paged search with a caller-supplied paging control was not refused");
+                    "adapter-init"
+                }
+                1 => {
+                    let r = cx.ldap.streaming_search(&mk, Scope::Subtree, "(a=b", vec!["a"]).await.map(|_| ());
+                    ensure!(r.is_err(), "c13:op-failed", "a search with an unparsable filter was not refused");
+                    "bad-filter"
+                }
+                2 => {
+                    let r = cx.ldap.add(&mk, vec![("a", std::collections::HashSet::<&str>::new())]).await;
+                    ensure!(r.is_err(), "c13:op-failed", "an add with a value-less attribute was not refused");
+                    "add-no-values"
+                }
+                _ => {
+                    let r = cx.ldap.search(&mk, Scope::Subtree, "(&(a=b)", vec!["a"]).await;
+                    ensure!(r.is_err(), "c13:op-failed", "search() with an unparsable filter was not refused");
+                    "bad-filter-search()"
+                }
+            };
+            quiesce().await;
+            let after: usize = cx.sh.lock().unwrap().wire_ids.values().map(|v| v.len()).sum();
+            ensure!(after == before, "c13:op-failed", "a locally failing operation ({}) put a request on the wire", what);
+            cx.notes.push(format!("local-failure:{}", what));
+        }
+        Step::DoubleTimeout { second_is_search, late } => {
+            let (_, mk1) = cx.plan(Plan::Silent { late: *late });
+            let (_, mk2) = cx.plan(Plan::Silent { late: *late });
+            let mut l1 = cx.ldap.clone();
+            let mut l2 = cx.ldap.clone();
+            l1.with_timeout(Duration::from_millis(50));
+            l2.with_timeout(Duration::from_millis(50));
+            let sis = *second_is_search;
+            // both start in the same instant, so both deadlines fall into the same timer tick
+            let a = tokio::spawn(async move { matches!(l1.compare(&mk1, "a", "b").await, Err(ldap3::LdapError::Timeout { .. })) });
+            let b = tokio::spawn(async move {
+                if sis {
+                    match l2.streaming_search(&mk2, Scope::Subtree, "(a=b)", vec!["a"]).await {
+                        Ok(mut s) => {
+                            let r = matches!(s.next().await, Err(ldap3::LdapError::Timeout { .. }));
+                            let _ = s.finish().await;
+                            r
+                        }
+                        Err(_) => false,
+                    }
+                } else {
+                    matches!(l2.delete(&mk2).await, Err(ldap3::LdapError::Timeout { .. }))
+                }
+            });
+            let (ra, rb) = (a.await.unwrap_or(false), b.await.unwrap_or(false));
+            ensure!(ra && rb, "c13:timeout-expected", "two operations against a silent server: timed out = {:?}", (ra, rb));
+            quiesce().await;
+            cx.send_late();
+        }
+        Step::PagedFinishWhileIdReused { adapted } => {
+            // page 0 complete, page 1: one entry, its result withheld (so the search is open when finish() comes)
+            let (idx, mk) = cx.plan(Plan::Paged { per_page: 1, pages: 3, open_page: Some(1) });
+            let attrs = vec!["a"];
+            let s = if *adapted {
+                let ad: Vec<Box<dyn Adapter<_, _>>> = vec![Box::new(EntriesOnly::new()), Box::new(PagedResults::new(2))];
+                cx.ldap.streaming_search_with(ad, &mk, Scope::Subtree, "(a=b)", attrs).await
+            } else {
+                cx.ldap.streaming_search_with(PagedResults::new(2), &mk, Scope::Subtree, "(a=b)", attrs).await
+            };
+            let mut s = match s {
+                Ok(s) => s,
+                Err(e) => fail!("c13:op-failed", "search start failed: {}", err_kind(&e)),
+            };
+            for _ in 0..2 {
+                match s.next().await {
+                    Ok(Some(_)) => {}
+                    other => fail!("c13:op-failed", "paged search: {:?}", other.map(|o| o.is_some()).map_err(|e| err_kind(&e))),
+                }
+            }
+            let first_id = { cx.sh.lock().unwrap().wire_ids.get(&idx).and_then(|v| v.first().copied()) };
+            let Some(first_id) = first_id else { fail!("c13:op-failed", "no request seen") };
+            // as after a wrap-around: the next operation is handed the id the first page travelled under
+            cx.msgmap.lock().unwrap().0 = (first_id - 1) as i32;
+            let (_, mk_b) = cx.plan(Plan::Silent { late: false });
+            let mut l2 = cx.ldap.clone();
+            let jh = tokio::spawn(async move {
+                let r = l2.delete(&mk_b).await;
+                (r.map(|r| r.text).map_err(|e| err_kind(&e)), l2.last_id())
+            });
+            quiesce().await;
+            let sid = { cx.sh.lock().unwrap().silent_ids.pop() };
+            let Some((bid, btag, _)) = sid else { fail!("c13:op-failed", "bystander request never reached the server") };
+            // the early finish of the paged search
+            let _ = s.finish().await;
+            quiesce().await;
+            // now the bystander is answered: it must get its own answer
+            cx.wire.push(&RespMsg::new(bid, Resp::result(btag, Res::ok("bystander"))).encode());
+            let ah = jh.abort_handle();
+            match tokio::time::timeout(Duration::from_secs(3600), jh).await {
+                Err(_) => {
+                    ah.abort();
+                    fail!("c13:bystander-disturbed", "an operation outstanding under id {} (the id the paged search's FIRST page had used and released) never got its answer after the paged search was finished early on its second page", bid)
+                }
+                Ok(Ok((Ok(t), _))) if t == "bystander" => {}
+                Ok(other) => fail!("c13:bystander-disturbed", "the operation outstanding under re-used id {} ended with {:?}", bid, other.map(|o| o.0)),
+            }
+            if bid == first_id {
+                cx.notes.push("first-page-id-reused-during-early-finish".into());
+            }
+        }
         Step::Rewind(k) => {
             let mut m = cx.msgmap.lock().unwrap();
             m.0 = (m.0 - *k as i32).max(0);
@@ -563,6 +692,9 @@ fn step_class(s: &Step) -> String {
         Step::Rewind(_) => "rewind-id-counter".into(),
         Step::SearchWithForeign { adapted, .. } => format!("search-with-foreign-response-{}", if *adapted { "adapted" } else { "direct" }),
         Step::SearchConvTimeout { .. } => "search()-timeout".into(),
+        Step::LocalFailure(k) => format!("local-failure-{}", k % 5),
+        Step::DoubleTimeout { second_is_search, .. } => format!("double-timeout-{}", if *second_is_search { "op+search" } else { "op+op" }),
+        Step::PagedFinishWhileIdReused { .. } => "paged-early-finish-while-first-page-id-reused".into(),
         Step::TimeoutTie { search, .. } => format!("timeout-tie-{}", if *search { "search" } else { "single" }),
         Step::TimeoutWhileQueued { search, answered, .. } => format!("timeout-while-queued-{}-{}", if *search { "search" } else { "single" }, if *answered { "answered-later" } else { "never-answered" }),
     }
